@@ -353,6 +353,53 @@ def call_shape_problem(call, callee, bound, enclosing):
     return None
 
 
+def _externally_named(ctx):
+    """Attribute names read on something other than `self` / `super()` anywhere in the package: methods with such a
+    name can be entered from outside their class (test._get_test_method(), self.case._run_setup, getattr-free)."""
+    cached = getattr(ctx, "_externally_named", None)
+    if cached is not None:
+        return cached
+    names = set()
+    for mod in ctx.repo.modules.values():
+        for n in ast.walk(mod.tree):
+            if isinstance(n, ast.Attribute) and not (isinstance(n.value, ast.Name) and n.value.id == "self") \
+                    and not (isinstance(n.value, ast.Call) and dotted(n.value.func) == "super"):
+                names.add(n.attr)
+            elif isinstance(n, ast.Constant) and isinstance(n.value, str) and n.value.isidentifier():
+                names.add(n.value)   # getattr(x, "name") and friends
+    ctx._externally_named = names
+    return names
+
+
+def _reachable_methods(ctx, c, names):
+    """The method names whose resolved body can execute with an object of class ``c`` as receiver: public and special
+    methods, methods named from outside the class, and whatever those reach through self.m / super().m."""
+    classes = ctx.classes
+    external = _externally_named(ctx)
+    roots = {m for m in names if not m.startswith("_") or (m.startswith("__") and m.endswith("__")) or m in external}
+    seen, work = set(), sorted(roots)
+    while work:
+        m = work.pop()
+        if m in seen:
+            continue
+        seen.add(m)
+        owner, body = classes.resolve_method(c, m)
+        bodies = [(owner, body)]
+        # bodies reached by super().m chains
+        while bodies:
+            o, b = bodies.pop()
+            if not isinstance(b, FUNC_TYPES) or o is None:
+                continue
+            for n in ast.walk(b):
+                if isinstance(n, ast.Attribute) and isinstance(n.value, ast.Name) and n.value.id == "self" and n.attr in names and n.attr not in seen:
+                    work.append(n.attr)
+                elif isinstance(n, ast.Attribute) and isinstance(n.value, ast.Call) and dotted(n.value.func) == "super":
+                    o2, b2 = classes.resolve_method(c, n.attr, after=o)
+                    if isinstance(b2, FUNC_TYPES) and (id(b2)) not in {id(x[1]) for x in bodies} and b2 is not b:
+                        bodies.append((o2, b2))
+    return seen
+
+
 def check_call_shapes(ctx):
     classes = ctx.classes
     n = 0
@@ -364,7 +411,10 @@ def check_call_shapes(ctx):
         names = set()
         for k in classes.mro(c):
             names |= set(k.methods)
+        reachable = _reachable_methods(ctx, c, names)
         for mname in sorted(names):
+            if mname not in reachable:
+                continue   # (a private helper of a base class that only overridden methods call: never entered with this receiver)
             owner, body = classes.resolve_method(c, mname)
             if not isinstance(body, FUNC_TYPES) or owner is None or owner.external:
                 continue
